@@ -51,8 +51,8 @@ def W(text): return text
 
 CHECKS.update({
     "C01": dict(category="proof",
-        text="Lean 4 proofs: the comparison clamps that sit directly in front of the user callback at the COBYLA, BOBYQA, bounded-NEWUOA, rescaled-DIRECT, Nelder-Mead/Sbplx and PRAXIS sites deliver a point inside [lb,ub] for EVERY box (finite, half-infinite, infinite, degenerate), every dimension and every non-NaN proposal of the numeric core, for every arithmetic; a coordinate with lb = ub is delivered equal to the bound; dimension elimination writes the fixed coordinates from lb bit for bit for every subset of fixed coordinates and every algorithm machine (elim_equiv). Tie: the wrapper model is replayed against every recorded run (S-wrap) and the site models map the hook-recorded proposals to the points the user saw (S-glue). The in-box monitor covers every callback of every algorithm incl. nested ones.",
-        design="3/C01", note=TB + "Modelled, not verified: the numeric cores are arbitrary proposers of non-NaN points; sites without a modelled clamp in front of the callback (SLSQP, Luksan, original DIRECT's f_direct clamp, the unscaled cdirect centers, StoGO, AGS, affine samplers) are monitor-only (evidence unproved_sites). Known findings: Luksan TNEWTON* finite-difference step, SLSQP NaN iterates. Fixed by commits: COBYLA/BOBYQA unscale clamp, x_bound, rescaled and unscaled cdirect, original DIRECT.",
+        text="Lean 4 proofs: the comparison clamps that sit directly in front of the user callback at the COBYLA, BOBYQA, bounded-NEWUOA, rescaled-DIRECT, original-DIRECT, Nelder-Mead/Sbplx and PRAXIS sites deliver a point inside [lb,ub] for EVERY box (finite, half-infinite, infinite, degenerate), every dimension and every non-NaN proposal of the numeric core, for every arithmetic; a coordinate with lb = ub is delivered equal to the bound; dimension elimination writes the fixed coordinates from lb bit for bit for every subset of fixed coordinates and every algorithm machine (elim_equiv). Tie: the wrapper model is replayed against every recorded run (S-wrap) and the site models map the hook-recorded proposals to the points the user saw (S-glue). The in-box monitor covers every callback of every algorithm incl. nested ones.",
+        design="3/C01", note=TB + "Modelled, not verified: the numeric cores are arbitrary proposers of non-NaN points; sites without a modelled clamp in front of the callback (SLSQP, Luksan, the unscaled cdirect centers, StoGO, AGS, affine samplers) are monitor-only (evidence unproved_sites). Known findings: Luksan TNEWTON* finite-difference step, SLSQP NaN iterates. Fixed by commits: COBYLA/BOBYQA unscale clamp, x_bound, rescaled and unscaled cdirect, original DIRECT.",
         technique="Lean 4 proof (order lemmas on the IEEE bit pattern; simulation over arbitrary algorithm machines) + site-level and wrapper-level differential correspondence"),
     "C02": dict(category="proof",
         text="Lean 4 proofs over the wrapper model of nlopt_optimize for an ARBITRARY algorithm machine: for the memoized families (COBYLA, TNEWTON*) the returned (x, opt_f) is bit-for-bit the first best in-box evaluation with the sign restored; no wrapper alters the algorithm's x / minf beyond expansion and sign; on every rejection x is untouched; the n = 0 object makes exactly one evaluation. Tie: every recorded run of the real library is replayed through the model (x, opt_f, code, user trace bitwise). Monitor: returned x bitwise in the objective trace with its value, inside the box, STOPVAL_REACHED only when reached, for all algorithms and early exits.",
